@@ -660,8 +660,13 @@ def judge(world, run):
         last_out = calls[-1][5] if calls else 'ok'
         classes_mode = run.cfg.get('devs') == 'classes'
         if run.escaped_injected and last_out != 'ok':
-            cat = last_out if classes_mode else \
-                {'valueerror': 'non-SECoPError', 'comfail': 'CommunicationFailedError'}.get(last_out, 'SECoPError')
+            if classes_mode:      # one category per kind of class, not per class: the same defect, few signatures
+                from frappy.errors import SECoPError, CommunicationFailedError
+                c = failure_classes()[last_out.partition('/')[0]]
+                cat = 'CommunicationFailedError' if issubclass(c, CommunicationFailedError) else \
+                    'SECoPError' if issubclass(c, SECoPError) else 'non-SECoPError'
+            else:
+                cat = {'valueerror': 'non-SECoPError', 'comfail': 'CommunicationFailedError'}.get(last_out, 'SECoPError')
         else:
             cat = f'not-injected-{exc}'          # the poll code itself raised
             if classes_mode and last_out != 'ok':
